@@ -1,5 +1,5 @@
 \* trace validation: four objects, every action, all hand files, no depth bound
-CONSTANTS MaxObj = 4  MaxLevel = 9999  HandFiles <- McHandFiles  Styles <- StylesAll  CopyKinds <- KindsAll  Ops <- OpsAll  Generic <- GenQR
+CONSTANTS MaxObj = 4  MaxLevel = 9999  HandFiles <- McHandFilesAll  Styles <- StylesAll  CopyKinds <- KindsAll  Ops <- OpsAll  Generic <- GenQR
 SPECIFICATION TSpec
 CONSTRAINT Progress
 POSTCONDITION Report
@@ -21,4 +21,5 @@ INVARIANT UnknownNamesAreReportedAndIgnored
 INVARIANT OthersUntouched
 INVARIANT CopiesStartEqual
 INVARIANT AdHocStaysWithTheCopy
+INVARIANT LateSettingOnlyWhereItExists
 CHECK_DEADLOCK FALSE
